@@ -291,6 +291,46 @@ func TestSizes(t *testing.T) {
 			}
 			// one submitter, so that batches are filled by exactly one call
 			c.Callers = c.Callers[:1]
+			if rapid.IntRange(0, 2).Draw(t, "byteExact") == 0 {
+				// filled by bytes instead: a small message opens a batch, the next one is exactly BatchBytes long, overflows it and
+				// fills the new batch on its own; both batches must leave at once (the timer is 10 s away)
+				c.BatchSize = 100
+				c.BatchBytes = int64(rapid.IntRange(200, 1500).Draw(t, "exactBatchBytes"))
+				proto := c.Callers[0][0].Msgs[0]
+				proto.ForceTopic = ""
+				if !c.WriterTopic {
+					proto.Topic = c.Topics[0]
+				}
+				small, exact := proto, proto
+				small.ValueSize = 20
+				built := wsim.Build(wsim.ID{Caller: 0, Call: 0, Index: 1}, wsim.Msg{Topic: exact.Topic, KeyLen: exact.KeyLen, ValueSize: 0, Headers: exact.Headers, HeaderLen: exact.HeaderLen})
+				exact.ValueSize = int(c.BatchBytes) - (int(wsim.TotalSize(&built)) - len(built.Value))
+				if exact.ValueSize >= 8 {
+					c.Callers = [][]wsim.Call{{{Msgs: []wsim.Msg{small, exact}}}}
+				}
+			}
+		case 3:
+			if caseNo%8 == 3 {
+				// BatchBytes left at its default (1048576): the same limits apply
+				c.DefaultBatchBytes = true
+				c.BatchBytes = 1 << 20
+				c.BatchSize = 100
+				c.Balancer = "first"
+				proto := c.Callers[0][0].Msgs[0]
+				proto.ForceTopic = ""
+				if !c.WriterTopic {
+					proto.Topic = c.Topics[0]
+				}
+				built := wsim.Build(wsim.ID{Caller: 0, Call: 0, Index: 1}, wsim.Msg{Topic: proto.Topic, KeyLen: proto.KeyLen, ValueSize: 0, Headers: proto.Headers, HeaderLen: proto.HeaderLen})
+				overhead := int(wsim.TotalSize(&built)) - len(built.Value)
+				small, big := proto, proto
+				small.ValueSize = 20
+				big.ValueSize = (1 << 20) - overhead + rapid.SampledFrom([]int{-1, 0, 1, 1, 2, 1000}).Draw(t, "aroundDefault")
+				c.Callers = [][]wsim.Call{{{Msgs: []wsim.Msg{small, big}}}}
+				c.Async = false
+			} else {
+				c.Async = false
+			}
 		case 2:
 			if caseNo%16 == 2 {
 				// steady stream: one submitter keeps appending to one partition with gaps shorter than BatchTimeout and never
